@@ -3,9 +3,11 @@
 mod c08;
 mod c09;
 mod c10;
+mod c11;
 mod c15;
 mod c16;
 mod c19;
+mod c20;
 mod lang;
 mod sexp;
 
@@ -22,10 +24,12 @@ fn dispatch(case: &Sexp) -> Option<Sexp> {
         "ctx-history" | "build-array" | "build-map" => c08::run(head, args),
         "registry-history" => c16::run(head, args),
         "contains" | "simd-active" => c10::run(head, args),
+        "wildcard" | "regex" => c11::run(head, args),
         "type-codec" | "type-json" | "scheme-json" | "scheme-roundtrip" | "ctype-build" | "ctype-decode" => {
             c15::run(head, args)
         }
         "panic-prog" | "panic-2threads" => c19::run(head, args, case),
+        "ffi-history" | "ffi-2threads" | "cstring-history" => c20::run(head, args),
         "exec" => lang::run_exec(args),
         "exec-value" => lang::run_exec_value(args),
         "parse" => lang::run_parse(args, false),
